@@ -9,7 +9,7 @@
    [valid p]: lower < upper, sigma > 0 (gaussian families), 0 < lower (log-uniform).
    Theorems over R quantify over unit values strictly inside (0,1). *)
 From Coq Require Import Reals List QArith.
-From PAFC02 Require Import Model Proofs ProofsQ ProofsB.
+From PAFC02 Require Import Model Proofs ProofsQ ProofsB Machine ProofsM.
 Import ListNotations.
 Open Scope R_scope.
 
@@ -237,8 +237,54 @@ Theorem C02_vector_raises : forall (N : Type) (A : Arith N) (S : Special N) (var
   exists i p u, nth_error ps i = Some p /\ nth_error us i = Some u /\ prior_value_for A S var p ig u = LimitExc.
 Proof. exact @vector_for_raises. Qed.
 
+(* ---- one prior object used several times (Machine.v): the answer depends on the current inputs only ---- *)
+
+(* any memo that is sound (hands back only what a fresh computation with the current limits gives) is unobservable:
+   every history of uses and limit re-assignments answers exactly as the memo-less object *)
+Theorem C02_history_independent : forall (N : Type) (A : Arith N) (S : Special N) (var : variant)
+  (P : policy (N := N)) (pm : prior N), sound A S var P pm ->
+  forall (ops : list (op (N := N))) (pg : prior N),
+    run A S var P pm pg (c_empty P) ops = run A S var no_cache pm pg tt ops.
+Proof. exact @history_independent. Qed.
+
+(* the answer of a use after ANY history is the fresh answer for the limits then in force *)
+Theorem C02_use_depends_on_current_inputs_only : forall (N : Type) (A : Arith N) (S : Special N) (var : variant)
+  (P : policy (N := N)) (pm : prior N), sound A S var P pm ->
+  forall (ops : list (op (N := N))) (pg : prior N) (q : query (N := N)),
+    last (run A S var P pm pg (c_empty P) (ops ++ [Use q])) None
+    = Some (fresh A S var pm (gate_after pg ops) q).
+Proof. exact @last_use_depends_on_current_inputs_only. Qed.
+
+Theorem C02_same_current_inputs_same_answer : forall (N : Type) (A : Arith N) (S : Special N) (var : variant)
+  (P : policy (N := N)) (pm : prior N), sound A S var P pm ->
+  forall (ops1 ops2 : list (op (N := N))) (pg : prior N) (q : query (N := N)),
+    gate_after pg ops1 = gate_after pg ops2 ->
+    last (run A S var P pm pg (c_empty P) (ops1 ++ [Use q])) None =
+    last (run A S var P pm pg (c_empty P) (ops2 ++ [Use q])) None.
+Proof. exact @same_current_inputs_same_answer. Qed.
+
+(* the limit gate follows the limits in force at the time of the call, whatever happened to the object before *)
+Theorem C02_gate_follows_current_limits : forall (N : Type) (A : Arith N) (S : Special N)
+  (P : policy (N := N)) (pm : prior N), sound A S Repaired P pm ->
+  forall (ops : list (op (N := N))) (pg : prior N) (u v : N),
+    last (run A S Repaired P pm pg (c_empty P) (ops ++ [Use (QValue false u)])) None = Some (AResult (Ok v)) ->
+    within A (gate_after pg ops) v = true.
+Proof. exact @gate_follows_current_limits. Qed.
+
+(* a memo keyed by the query alone (limits not in the key, never invalidated) IS observable *)
+Theorem C02_memo_by_query_refuted : forall (N : Type) (A : Arith N) (S : Special N) (var : variant)
+  (qeqb : query (N := N) -> query (N := N) -> bool) (pm pg : prior N) (lo hi : N) (q : query (N := N)),
+  qeqb q q = true ->
+  fresh A S var pm pg q <> fresh A S var pm (set_limits pg lo hi) q ->
+  run A S var (by_query qeqb) pm pg [] [Use q; SetLimits lo hi; Use q] <>
+  run A S var no_cache pm pg tt [Use q; SetLimits lo hi; Use q].
+Proof. exact @by_query_refuted. Qed.
+
 Print Assumptions C02_monotone.
 Print Assumptions C02_inverse_message.
 Print Assumptions C02_quantile_loguniform.
 Print Assumptions C02_before_fix_uniform_within_limits_refuted.
 Print Assumptions C02_vector.
+Print Assumptions C02_history_independent.
+Print Assumptions C02_gate_follows_current_limits.
+Print Assumptions C02_memo_by_query_refuted.
